@@ -7,7 +7,7 @@
    oracles (unicode.IsPrint, token.ToNumber, token.isNumber, token.isTimestamp)
    are universally quantified; the two hypotheses about them are validated on
    every generated case by the harness. *)
-From Verif Require Import Yaml.Scalar Yaml.Proofs Yaml.Literal Yaml.Style Yaml.Examples.
+From Verif Require Import Yaml.Scalar Yaml.Proofs Yaml.Literal Yaml.Style Yaml.Json Yaml.Examples.
 From Coq Require Import List NArith Bool.
 Import ListNotations.
 Open Scope N_scope.
@@ -139,6 +139,17 @@ Theorem C11_json_literals_resolve : forall tok_number,
   resolve_plain tok_number [110; 117; 108; 108] = TNull.
 Proof. exact json_literals_resolve. Qed.
 Print Assumptions C11_json_literals_resolve.
+
+(* every JSON number text (RFC 8259 grammar) is resolved as a number by the YAML decoder, never as a string *)
+Theorem C11_json_number_not_string : forall tok_number s,
+  json_number s = true -> is_tstr (resolve_plain tok_number s) = false.
+Proof. exact json_number_not_string. Qed.
+Print Assumptions C11_json_number_not_string.
+
+Example C11_json_number_example :
+  json_number [45; 49; 46; 53; 101; 43; 51] = true /\ json_number [48] = true /\ json_number [48; 49] = false.
+Proof. repeat split; reflexivity. Qed.
+Print Assumptions C11_json_number_example.
 
 (* non-vacuity *)
 Example C11_literal_ok_example :
